@@ -15,6 +15,16 @@ Certificate, per state `s` of the table:
 * `srq`                — a bound that every state on the step stack requires at most, and every pop provides;
 * `regs s`            — the values the step register can have while the code of `s` runs (`s` itself, or
                         the caller's state when `s` is entered by `return stateX(s, c)`).
+
+`nt`, `rq`/`srq` are least solutions of requirement ("backward") constraints: a state whose check fails is
+added / raised and the round is repeated until nothing changes.  `oe` is a forward pass from `stateRoot`.
+`regs` is a forward closure.  None of these computations is trusted: `checkCode` is evaluated on the result,
+and `Proofs/ScanSafeRun.lean` proves the run-level theorems from `checkCode` for an ARBITRARY certificate.
+
+The end-of-file byte (0) is only ever seen at `curIndex = len(data)` (`byteStep` refuses a real NUL), so a
+leaf that it selects and that consumes it without a rewind ends the scan: such a leaf need not lead to a
+state whose `oe` agrees (`stateDescriptionText` stays where it is after `found(TextEnd)` at the end of the
+file).  Hence the leaves are checked per byte class (`leavesEof` / `leavesNZ`).
 -/
 namespace JSight.ScanSafe
 open JSight JSight.Gen
@@ -221,8 +231,9 @@ def pairsL : List (St × St) :=
 /-- the register while the code of `st` runs: `st` itself, or a caller's state -/
 def regsL (st : St) : List St := st :: regsOfL pairsL st
 
-/-! The sets / maps that are iterated are encoded in one `Nat` each (a bit, resp. a byte, per constructor
-index), so that the kernel computes every round to a literal (GMP arithmetic) instead of a lazy list. -/
+/-! The sets / maps that are iterated are encoded in one `Nat` each (a bit, a nibble, resp. a byte per
+constructor index), so that the kernel computes every round to a literal (GMP arithmetic) instead of a lazy
+list.  (A requirement above 255 would spill into the next byte; the check would then fail, not be unsound.) -/
 
 def bitOf (m : Nat) (s : St) : Bool := Nat.testBit m s.ctorIdx
 def byteOf (m : Nat) (s : St) : Nat := (m >>> (8 * s.ctorIdx)) % 256
@@ -298,7 +309,7 @@ def oeDfs : Nat → List (St × Option Ev) → Nat × Nat → Nat × Nat
     if bitOf vis p.1 then oeDfs n w (vis, m)
     else oeDfs n (oeSuccs p.1 p.2 ++ w) (vis ||| (1 <<< p.1.ctorIdx), m + (evCode p.2 <<< (4 * p.1.ctorIdx)))
 
-def oeM : Nat := (oeDfs 4096 [(.stateRoot, none)] (0, 0)).2
+def oeM : Nat := (oeDfs (64 * St.all.length) [(.stateRoot, none)] (0, 0)).2
 
 /-- the certificate of the current table -/
 def cert : Cert := { nt := bitOf ntM, oe := oeOfM oeM, rq := byteOf rqX.1, srq := rqX.2, regs := regsL }
